@@ -3,7 +3,7 @@
     c01 F|J vars <nv> <sizes…> pars <np> <sizes…> eqs <ne> <expr>… y <n> <vals…> p <n> <vals…> y0 <n> <vals…>
   expressions in prefix form:
     num <f> | var <v> <sel> | par <q> <sel> | prev <v> <sel> | add e e | sub e e | mul e e | div e e | neg e
-    | powi e <n> | sin e | cos e | exp e | ln e | abs e | sign e | heav e | not e | lt e e | gt e e | and e e | or e e
+    | powi e <n> | powr e e | sin e | cos e | exp e | ln e | abs e | sign e | heav e | not e | lt e e | gt e e | and e e | or e e
     | in3 e e e | sat e e e | min e e | awu e e e e
     | matvec <q> <cols> e
   sel ::= w | i <int> | s <a|none> <b|none> | st <a|none> <b|none> <step> | pk <n> <k…>
@@ -44,6 +44,7 @@ partial def parseEx : List String → Option (Ex Float × List String)
       match r with | n :: r' => do some (.powi a (← parseInt n), r') | [] => none
   | "add" :: r => bin Ex.add r | "sub" :: r => bin Ex.sub r | "mul" :: r => bin Ex.mul r | "div" :: r => bin Ex.div r
   | "lt" :: r => bin (Ex.cmp .lt) r | "gt" :: r => bin (Ex.cmp .gt) r | "and" :: r => bin Ex.and r | "or" :: r => bin Ex.or r
+  | "powr" :: r => bin Ex.powr r
   | "min" :: r => bin (Generated.minRule fF) r
   | "sin" :: r => un .sin r | "cos" :: r => un .cos r | "exp" :: r => un .exp r | "ln" :: r => un .ln r
   | "abs" :: r => un .abs r | "sign" :: r => un .sign r | "heav" :: r => un .heav r | "not" :: r => un .not r
